@@ -21,6 +21,17 @@ Two things are modelled:
         under every reading the documentation leaves open; otherwise it is
         returned with verdict UNSPEC (counted, never alarmed on).
 
+  * table_legal(cols, rows, tdef) -> bool
+        which data a table DEFINITION admits (PRIMARY KEY single / composite,
+        UNIQUE, NOT NULL, unique indexes, WITHOUT ROWID, the INTEGER PRIMARY
+        KEY rowid alias), after the SQLite documentation ("CREATE TABLE":
+        NULLs are distinct in UNIQUE and - in rowid tables - PRIMARY KEY
+        columns; a WITHOUT ROWID table's key columns are NOT NULL).  Used by
+        the enumerator to generate only tables that can exist.  Whether a
+        PERTURBING row is admitted is not predicted: the driver asks SQLite
+        (trusted base) and a rejected or transformed row is not a
+        perturbation.
+
 What is NOT modelled (not needed by the statement): which constraints
 discovery must produce (that is C07).  The closure half of the property is an
 invariant (no exception, zero failures) and needs no model.
@@ -63,6 +74,81 @@ def stored(decl, v):
     if isinstance(v, bool):
         return int(v)
     return v
+
+
+# ---- table definitions --------------------------------------------------
+#
+# tdef (JSON-able dict, every key optional):
+#   pk      [col index, ...]    PRIMARY KEY over these columns, in this order
+#   pkform  'col' | 'tab'       column constraint (single column only) or
+#                               table constraint
+#   uniq    [[col index, ...]]  UNIQUE constraints (column constraint when one
+#                               column, table constraint otherwise)
+#   nn      [col index, ...]    NOT NULL
+#   dflt    [col index, ...]    DEFAULT <benign literal of the family>
+#   norowid bool                WITHOUT ROWID (needs pk)
+#   idx     [[[col, ...], unique?], ...]   CREATE [UNIQUE] INDEX after the table
+#   view    bool                CREATE VIEW v AS SELECT * FROM t; tdda is
+#                               pointed at v, rows are written to t
+
+DEFAULT_SQL = {'int': '1', 'real': '1.5', 'string': "'a'", 'bool': '1',
+               'date': "'2000-01-01 00:00:00'"}
+
+
+def rowid_alias(cols, tdef):
+    """Index of the column that is an alias of the rowid (declared type
+    exactly INTEGER, sole PRIMARY KEY column, rowid table), else None.  A
+    NULL written to it is replaced by a fresh integer."""
+    pk = tdef.get('pk') or []
+    if len(pk) == 1 and not tdef.get('norowid') \
+            and cols[pk[0]][1].upper() == 'INTEGER':
+        return pk[0]
+    return None
+
+
+def notnull_cols(cols, tdef):
+    nn = set(tdef.get('nn') or [])
+    if tdef.get('norowid'):
+        nn.update(tdef.get('pk') or [])
+    return nn
+
+
+def unique_sets(cols, tdef):
+    sets = []
+    if tdef.get('pk'):
+        sets.append(tuple(tdef['pk']))
+    for u in tdef.get('uniq') or []:
+        sets.append(tuple(u))
+    for (ic, uq) in tdef.get('idx') or []:
+        if uq:
+            sets.append(tuple(ic))
+    return sets
+
+
+def table_legal(cols, rows, tdef):
+    """Can a table with this definition hold exactly these rows (as
+    written, no value replaced)?"""
+    if not tdef:
+        return True
+    if tdef.get('norowid') and not tdef.get('pk'):
+        return False
+    alias = rowid_alias(cols, tdef)
+    nn = notnull_cols(cols, tdef)
+    for r in rows:
+        if any(r[i] is None for i in nn):
+            return False
+        if alias is not None and r[alias] is None:
+            return False          # would be replaced by a generated integer
+    for key in unique_sets(cols, tdef):
+        seen = set()
+        for r in rows:
+            k = tuple(stored(cols[i][1], r[i]) for i in key)
+            if any(v is None for v in k):
+                continue          # NULLs are distinct from everything
+            if k in seen:
+                return False
+            seen.add(k)
+    return True
 
 
 def parse_dt(s):
